@@ -932,23 +932,14 @@ func (f *Field) SetBit(rowID, colID uint64, t *time.Time) (changed bool, err err
 
 // ClearBit clears a bit within the field.
 func (f *Field) ClearBit(rowID, colID uint64) (changed bool, err error) {
-	viewName := viewStandard
-
-	// Retrieve view. Exit if it doesn't exist.
-	view, present := f.viewMap[viewName]
-	if !present {
-		return changed, errors.Wrap(err, "clearing missing view")
-
-	}
-
-	// Clear non-time bit.
-	if v, err := view.clearBit(rowID, colID); err != nil {
-		return changed, errors.Wrap(err, "clearing on view")
-	} else if v {
-		changed = v
-	}
-	if len(f.viewMap) == 1 { // assuming no time views
-		return changed, nil
+	// Clear non-time bit. A time field created with noStandardView has no
+	// standard view; its time views still hold the bit.
+	if view, present := f.viewMap[viewStandard]; present {
+		if v, err := view.clearBit(rowID, colID); err != nil {
+			return changed, errors.Wrap(err, "clearing on view")
+		} else if v {
+			changed = v
+		}
 	}
 	// The views come sorted parent first (2019, 201901, 20190102, 2020, ...). A bit
 	// that is absent from a view is absent from every finer view below it (their
@@ -997,6 +988,9 @@ func (f *Field) allTimeViewsSortedByQuantum() (me []*view) {
 		}
 	}
 	me = me[:i]
+	if len(me) == 0 { // no time views
+		return me
+	}
 	year := strings.Index(me[0].name, "_") + 4
 	month := year + 2
 	day := month + 2
